@@ -1370,27 +1370,27 @@ impl<E: Edge> ZBDDCache<E> {
 pub mod apply_rec {
 use super::*;
 broadcast use {leaf_lemmas, ite_lemmas};
-//@fn file=crates/oxidd-rules-zbdd/src/apply_rec.rs path=fn:apply_union nodecr expect=R5:1 props=C09,C02,C06 vis=pub
+//@fn file=crates/oxidd-rules-zbdd/src/apply_rec.rs path=fn:apply_union nodecr props=C09,C02,C06 vis=pub
 //@spec
     requires edge_ok::<M::Edge>(), ok(f.view(), manager.num_levels_spec()), ok(g.view(), manager.num_levels_spec()),
     ensures res is Ok ==> union_post(f.view(), g.view(), manager.num_levels_spec(), res->Ok_0.view()),
 //@end
-//@fn file=crates/oxidd-rules-zbdd/src/apply_rec.rs path=fn:apply_intsec nodecr expect=R5:1 props=C09,C02,C06 vis=pub
+//@fn file=crates/oxidd-rules-zbdd/src/apply_rec.rs path=fn:apply_intsec nodecr props=C09,C02,C06 vis=pub
 //@spec
     requires edge_ok::<M::Edge>(), ok(f.view(), manager.num_levels_spec()), ok(g.view(), manager.num_levels_spec()),
     ensures res is Ok ==> intsec_post(f.view(), g.view(), manager.num_levels_spec(), res->Ok_0.view()),
 //@end
-//@fn file=crates/oxidd-rules-zbdd/src/apply_rec.rs path=fn:apply_diff nodecr expect=R5:1 props=C09,C02,C06 vis=pub
+//@fn file=crates/oxidd-rules-zbdd/src/apply_rec.rs path=fn:apply_diff nodecr props=C09,C02,C06 vis=pub
 //@spec
     requires edge_ok::<M::Edge>(), ok(f.view(), manager.num_levels_spec()), ok(g.view(), manager.num_levels_spec()),
     ensures res is Ok ==> diff_post(f.view(), g.view(), manager.num_levels_spec(), res->Ok_0.view()),
 //@end
-//@fn file=crates/oxidd-rules-zbdd/src/apply_rec.rs path=fn:apply_symm_diff nodecr expect=R5:1 props=C02,C06 vis=pub
+//@fn file=crates/oxidd-rules-zbdd/src/apply_rec.rs path=fn:apply_symm_diff nodecr props=C02,C06 vis=pub
 //@spec
     requires edge_ok::<M::Edge>(), ok(f.view(), manager.num_levels_spec()), ok(g.view(), manager.num_levels_spec()),
     ensures res is Ok ==> symm_diff_post(f.view(), g.view(), manager.num_levels_spec(), res->Ok_0.view()),
 //@end
-//@fn file=crates/oxidd-rules-zbdd/src/apply_rec.rs path=fn:apply_ite nodecr expect=R5:3 props=C02,C06 vis=pub(crate)
+//@fn file=crates/oxidd-rules-zbdd/src/apply_rec.rs path=fn:apply_ite nodecr props=C02,C06 vis=pub(crate)
 //@spec
     requires edge_ok::<M::Edge>(), zcache_ok(manager), ok(f.view(), manager.num_levels_spec()), ok(g.view(), manager.num_levels_spec()), ok(h.view(), manager.num_levels_spec()),
     ensures res is Ok ==> ite_post(f.view(), g.view(), h.view(), manager.num_levels_spec(), res->Ok_0.view()),
@@ -1405,7 +1405,7 @@ broadcast use {leaf_lemmas, upd_lemmas, taut_lemmas, set_lemmas};
     requires edge_ok::<M::Edge>(), zcache_ok(manager), ok(f.view(), manager.num_levels_spec()),
     ensures res is Ok ==> not_post(f.view(), manager.num_levels_spec(), res->Ok_0.view()),
 //@end
-//@fn file=crates/oxidd-rules-zbdd/src/apply_rec.rs path=fn:subset nodecr expect=R5:1,R11:1 props=C09,C06 cases=VAL:0-1,0,1 vis=pub
+//@fn file=crates/oxidd-rules-zbdd/src/apply_rec.rs path=fn:subset nodecr props=C09,C06 cases=VAL:0-1,0,1 vis=pub
 //@spec
     requires VAL == -1 || VAL == 0 || VAL == 1, edge_ok::<M::Edge>(), ok(f.view(), manager.num_levels_spec()),
         (var as int) < manager.num_levels_spec(), var_level as int == manager.var_to_level_spec(var as int),
@@ -1623,7 +1623,7 @@ broadcast use {leaf_lemmas, upd_lemmas, restrict_lemmas};
         (level as int) <= top(vars.view()), (level as int) <= manager.num_levels_spec() <= u32::MAX,
     ensures res is Ok ==> restrict_post(bb(), vars.view(), level as int, manager.num_levels_spec(), res->Ok_0.view()),
 //@end
-//@fn file=crates/oxidd-rules-zbdd/src/apply_rec.rs path=fn:restrict hoist=restrict_base>restrict__restrict_base nodecr expect=R5:1 props=C04,C06 vis=pub(crate)
+//@fn file=crates/oxidd-rules-zbdd/src/apply_rec.rs path=fn:restrict hoist=restrict_base>restrict__restrict_base nodecr props=C04,C06 vis=pub(crate)
 //@spec
     requires edge_ok::<M::Edge>(), zcache_ok(manager), ok(f.view(), manager.num_levels_spec()), ok(vars.view(), manager.num_levels_spec()), is_cube(vars.view()),
         (level as int) <= top(f.view()), (level as int) <= top(vars.view()), (level as int) <= manager.num_levels_spec() <= u32::MAX,
@@ -1691,7 +1691,7 @@ where M: Manager<Terminal = ZBDDTerminal> + HasApplyCache<M, ZBDDOp> + HasZBDDCa
 pub mod apply_rec_c {
 use super::*;
 broadcast use {leaf_lemmas, count_lemmas};
-//@fn file=crates/oxidd-rules-zbdd/src/apply_rec.rs path=impl:BooleanFunction~for~ZBDDFunction<F>/fn:sat_count_edge/fn:inner rename=sat_count_edge__inner expect=R13:1 props=C12
+//@fn file=crates/oxidd-rules-zbdd/src/apply_rec.rs path=impl:BooleanFunction~for~ZBDDFunction<F>/fn:sat_count_edge/fn:inner rename=sat_count_edge__inner props=C12
 //@header
 fn sat_count_edge__inner<M: Manager<Terminal = ZBDDTerminal>, N: SatCountNumber, S>(manager: &M, e: Borrowed<M::Edge>, cache: &mut SatCountCache<N, S>) -> (res: N)
 //@spec
